@@ -141,6 +141,19 @@ pub fn scenario(g: &mut G, ctx: &RunCtx) -> RunReport {
         }
         _ => head_len + g.usize_below(frame_end - head_len + 1),
     };
+    // (no draw) callers who also set an overall timeout (two hours here - nothing in a run comes near it) get
+    // their data as promptly as everybody else; with a chunked body the server sometimes pauses inside the
+    // last-chunk's own line ending, the data chunks before it complete
+    if plan.payload.len() % 3 == 0 {
+        plan.overall_timeout_ms = Some(7_200_000);
+        g.probe("overall-timeout-set-far-away");
+    }
+    let k = if plan.framing == Framing::Chunked && plan.overall_timeout_ms.is_some() && k % 2 == 1 && frame_end >= head_len + 5 {
+        g.probe("pause-inside-the-last-chunk-line-ending");
+        frame_end - 1 - (k % 4) / 2
+    } else {
+        k
+    };
     let (segs, name) = gen::segmentation(g, k, &plan.wire.targets.clone());
     plan.seg_name = name;
     plan.nsegs = segs.len();
